@@ -110,6 +110,19 @@ def classify(fn, facts_list, devfield, size_id, data_id):
                 rest = [e for e in eqs if not (mentions(e[2], member_named(devfield)) or mentions(e[3], member_named(devfield)))]
                 if all((cmp_norm(e) or (None, None, None))[2] == 0x7F for e in rest):
                     kinds.add('device')
+                    # a comparison of only some bits of the device byte needs the remaining bits tested elsewhere
+                    for e in eqs:
+                        for side in (e[2], e[3]):
+                            sx = strip(side)
+                            if sx.get('k') == 'BinaryOperator' and sx['op'] == '&' and const_of(sx['r']) is not None and not mentions(sx, member_named(devfield)):
+                                kinds.add('device-masked:%d' % const_of(sx['r']))
+        # complement test of the device byte: (dev & 0xF0) == C as a comparison or as part of a switch operand
+        def hi_mask(x):
+            return x.get('k') == 'BinaryOperator' and x['op'] == '&' and const_of(x['r']) == 0xF0 and strip(x['l']).get('k') == 'DeclRefExpr' and strip(x['l']).get('parm')
+        if f[0] == 'cmp' and f[1] == '==' and (mentions(f[2], hi_mask) or mentions(f[3], hi_mask)):
+            kinds.add('device-hi')
+        if f[0] == 'case' and mentions(f[1], hi_mask):
+            kinds.add('device-hi')
         if f[0] == 'cmp':
             n = cmp_norm(f)
             if n:
@@ -357,13 +370,13 @@ def analyse(facts, tier):
         eff = list(effects_of(h))
         eff_blocks = {}
         for b, j, st, what in eff:
-            fl = []
-            for e in h.cfg.dominating_edges(b):
-                fl += edge_facts(e, sd)
+            fl = guard_facts(h, b, st, sd)
             kinds = classify(h, fl, devfield, size['id'], data['id'])
             need = {'device', 'exact-size'} | ({'checksum'} if roland else set())
             if not const_upd:
                 kinds.discard('exact-size')
+            if any(k.startswith('device-masked') for k in kinds) and 'device-hi' not in kinds:
+                kinds.discard('device')      # only the low nibble is compared and nothing pins the rest of the device byte
             miss = need - kinds
             cases = [fact_str(f) for f in fl if f[0] == 'case']
             obls.append(Obl('C19.R1', h.name, what, st['loc'], 'finding' if miss else 'discharged',
